@@ -485,12 +485,17 @@ class TV:
                 raise
             self.stats["paths"] += len(paths)
             # expected outcomes
+            tag = f"feed/case{i}.b{bs[0]}"
             try:
                 exp = self.expected_feed(state, t, vals, inval0)
             except amach.SpecError as e:
                 self.fail("refine", f"feed/case{i}.spec", str(e))
+                if "capacity" in str(e):
+                    # a constant that does not fit must be a compile-time error (C03)
+                    self.fail("memsafe", f"feed/case{i}.constant-fits", str(e))
+                for p in paths:
+                    self.collect_obs(p, tag)
                 continue
-            tag = f"feed/case{i}.b{bs[0]}"
             for p in paths:
                 self.collect_obs(p, tag)
                 self.check_path(tag, i, p, exp, vals, inval0, start0, end0, bs, "feed")
